@@ -151,3 +151,32 @@ Print Assumptions C02_cast_code_is_model.
 Theorem C02_escape_code_is_model : forall st x, fn_escapeChars st x = Ret (escape_chars x).
 Proof. exact escape_code_is_model. Qed.
 Print Assumptions C02_escape_code_is_model.
+
+(* ---- tie to the CURRENT source of xmlToMapParser (xml.go:370-538), the core of NewMapXml: go2v re-translates the
+   function statement by statement on every run (Gen/Pure_gen.v: key transformation, the attribute loop, the XMPP early
+   return, the token loop with its type switch, recursion for child elements, _seq augmentation, list building on
+   repeated keys, the shapes at the end tag, character data; xml.Decoder as its token list); GenProofs/PureG14.v proves
+   the translation - with the TRANSLATED cast and escapeChars plugged in - equal to the model decoder
+   [xml_decode_rest] the theorems above are stated with, on every token list whose start tags have a non-empty local
+   name (encoding/xml returns no other; without the condition code and model differ: C02_xml_parser_code_empty_name_refuted). *)
+From Mxj Require Import Gen.Setters_gen Gen.PureSupport Gen.Pure_gen Spec.ConvClauses GenProofs.PureG GenProofs.PureG14.
+
+Theorem C02_xml_parser_code_is_model : forall pf callskip o r st fuel ts tm,
+  dec_view st o -> cast_view st o -> length ts < fuel -> forallb start_ok ts = true ->
+  fn_xmlToMapParser (run_escapeChars st) (run_cast pf callskip st) fuel st [] [] (ts, tm) r
+  = dec_top_result tm (xml_decode_rest pf (skip_of st callskip) o r ts tm).
+Proof. exact xml_parser_code_is_model_translated. Qed.
+Print Assumptions C02_xml_parser_code_is_model.
+
+Theorem C02_xml_parser_code_no_panic : forall pf callskip o r st fuel ts tm,
+  dec_view st o -> cast_view st o -> length ts < fuel -> forallb start_ok ts = true -> top_ok ts = true ->
+  fn_xmlToMapParser (run_escapeChars st) (run_cast pf callskip st) fuel st [] [] (ts, tm) r <> Crash.
+Proof. exact xml_parser_code_no_panic. Qed.
+Print Assumptions C02_xml_parser_code_no_panic.
+
+Theorem C02_xml_parser_code_empty_name_refuted :
+  exists pf skip o r st ts tm, dec_view st o /\
+    fn_xmlToMapParser escape_chars (fun x b t => cast pf skip o x b t) (S (length ts)) st [] [] (ts, tm) r
+    <> dec_top_result tm (xml_decode_rest pf skip o r ts tm).
+Proof. exact xml_parser_code_is_model_empty_name_refuted. Qed.
+Print Assumptions C02_xml_parser_code_empty_name_refuted.
